@@ -87,6 +87,49 @@ FIRST_MISSED = {
     'c12-o': 'kind E: destinations that are a relativity alone (empty suffix) denote the root of that relativity',
     'c12-p': 'kind E: path arguments of exists / contents / dir-contents after a cd (default: current directory)',
     'c15-n': 'literal cases: dir-contents-of onto a directory that already holds one of the names (clash = HARD_ERROR)',
+    # round 7 (letters q-t; delivered at the very end of the second session, processed in the third): four single-site
+    # mutations per property, in helper modules the anchors rely on ("not an ANCHORS file")
+    'c01-r': 'stub faults of the symbol-validation step through DEFINITIONS: value refers to an undefined symbol, a name '
+             'defined twice, a reference violating its type restriction',
+    'c05-t': '`-line-nums` ranges that overlap, lie inside one another or touch, in every listing order; up to four '
+             'ranges with bounds anywhere in the text',
+    'c07-q': 'kind `actmerge`: [act] declared several times and EXECUTED (source actor): the lines reach the actor in '
+             'file order',
+    'c07-s': 'inclusion cycles that lead back to the ROOT file, with the located chain (every directive once) demanded',
+    'c09-s': 'here-document markers over the complete documented alphabet (every letter, every digit, `_`, `-`)',
+    'c12-s': 'kind D: a path symbol that reaches the suffix of a creating argument through 1-4 string definitions',
+    'c14-r': 'family `identity-in-chain`: `identity` inside a chain around a transformer that changes the text, where '
+             'short cuts for identity transformations are taken (program output, `run`, nested sequences), both sides',
+    'c14-s': 'family `equals-stderr`: what a program writes on stderr as the expected operand (caught by M4 as well: '
+             '`write_to` of the frozen copy differs from `as_file`)',
+    # round 8 (letters u-w, third session): three contrived changes per property - two cooperating sites / carried
+    # state / unusual input or a fault at a particular point
+    'c02-v': 'ending `fail_then_hard_cleanup`: a failing assertion followed by an error in [cleanup] (the manual: "reported '
+             'as an error, and not as a failed test")',
+    'c03-v': 'NOT a violation of C03 as stated for a case run alone; it is state carried from one case of a suite run to '
+             'the next: caught by C17 (shared suite contents), which also got values that are ill-formed in one case only',
+    'c03-w': 'spellings `self_reference`: a definition that refers to the symbol it defines (11 forms)',
+    'c04-w': 'disturbance `startdel`: the directory Exactly was started in is removed during the run (this also exposed '
+             'an open finding under --keep)',
+    'c05-v': 'NOT within the statement of C05 (one text, one expression): state carried by a suite-file instruction from '
+             'case to case; caught by C17 (shared `replace` with a symbol in its regex)',
+    'c05-w': 'kind `samestat`: `equals` between two files of the same size and modification time',
+    'c06-u': 'text-matcher expressions over a model that is the OUTPUT OF A PROGRAM (`-transformed-by run`), which is '
+             'cached the first time an operand reads it',
+    'c06-v': 'NOT within the statement of C06; state carried by a suite-file instruction (a `|` sequence) from case to '
+             'case: C17 got compositions (`|`, `&&`, `||`, `!`) with symbol-dependent operands as shared suite contents',
+    'c08-w': 'a quarter of the programs use symbol names with letters and digits outside ASCII',
+    'c10-w': 'family `signal`: a program run as an instruction that is terminated by a signal (six signals x phase x form)',
+    'c12-w': 'kind L: a leading path-symbol reference followed by a suffix with an absolute part (literal, string symbol, '
+             'through a further path definition, copy destination, quoted)',
+    'c14-v': 'NOT a violation of C14 as stated (how ONE text is consumed): the output depends on which texts the '
+             'transformer object served before; caught by C13 and C05 (one instruction, several texts)',
+    'c16-w': 'quoted entries in [cases] / [suites] that hold pattern characters or spaces are plain file names',
+    'c17-u': 'listed case files that are symbolic links to files in another directory',
+    'c18-v': 'part suite: the instructions of a sampled case are contributed by a suite file to three cases (one parsed '
+             'instruction object serves them all); C17 got values that are ill-formed in ALL cases',
+    'c18-w': 'extreme structures `self-ref-*`: definitions that refer to the symbol they define, every type x phase',
+    'c19-v': 'part F: timeout histories around a FAILING step - [cleanup] runs under the timeout in force at the failure',
 }
 
 
@@ -107,9 +150,9 @@ def main():
     n = len(rows)
     k = sum(1 for r in rows if r[3] == 'missed')
     print()
-    print('%d changes; first pass: %d caught, %d missed; by round (a/b, c/d, e/f, g/h, i-l, m-p): %s' % (
+    print('%d changes; first pass: %d caught, %d missed; by round (a/b, c/d, e/f, g/h, i-l, m-p, q-t, u-w, x-z): %s' % (
         n, n - k, k, ', '.join('%d/%d' % (sum(1 for r in rows if r[0][4] in ab and r[3] == 'caught'),
-                                          sum(1 for r in rows if r[0][4] in ab)) for ab in ('ab', 'cd', 'ef', 'gh', 'ijkl', 'mnop'))))
+                                          sum(1 for r in rows if r[0][4] in ab)) for ab in ('ab', 'cd', 'ef', 'gh', 'ijkl', 'mnop', 'qrst', 'uvw', 'xyz'))))
 
 
 if __name__ == '__main__':
